@@ -5,9 +5,10 @@
 
     Not proved here (checked by the correspondence and the extracted oracle only): completeness on a deterministic
     class (T11_match_complete_det of the design), the parser round trip (the parser model is tied by correspondence),
-    pre-filters, tokenize/replace. *)
+    the Boyer-Moore fixed-string filter, option i, tokenize/replace.  Pre-filters fMinLength / fFirstChar: necessity
+    theorems at the end of this file. *)
 From Coq Require Import Arith PeanoNat.
-From XV Require Import C11.Spec11 C11.ModelRange11 C11.Model11 C11.Proofs11a C11.Proofs11b C11.Proofs11c C11.Proofs11d C11.Proofs11e C11.Proofs11f C11.Proofs11g C11.Proofs11h Gen.GenC11Cat.
+From XV Require Import C11.Spec11 C11.ModelRange11 C11.Model11 C11.Proofs11a C11.Proofs11b C11.Proofs11c C11.Proofs11d C11.Proofs11e C11.Proofs11f C11.Proofs11g C11.Proofs11h C11.ModelPre11 C11.Proofs11i C11.Proofs11j Gen.GenC11Cat.
 Local Open Scope N_scope.
 
 (* ---------------------------------------------------------------------------------------------- *)
@@ -293,4 +294,93 @@ Proof. vm_compute. repeat split. Qed.
 Example T11_dot_refuted :
   xmatch_tok sw_faithful 50 TDot [0x2028] = XFalse /\ xmatch_tok sw_faithful 50 TDot [0x1000A] = XFalse /\
   xmatch_tok (mkSw false false true) 50 TDot [0x1000A] = XTrue /\ xmatch_tok sw_faithful 50 TDot [10] = XFalse.
+Proof. vm_compute. repeat split. Qed.
+
+(* ---------------------------------------------------------------------------------------------- *)
+(** * the flags of a RangeToken stay truthful along the library's own call sequences
+    [rt_acc]: ranges sorted by start with lo <= hi, fSorted set on every allocated token, fCompacted still clear --
+    the state of a token that started as [rt_new] and only saw addRange / mergeRanges (parseCharacterClass,
+    analyzeFirstCharacter).  It implies [rt_inv], the hypothesis of T11_range_subtract/_intersect/_complement. *)
+Theorem T11_range_flags_add : forall fx t a b, rt_acc t -> rt_acc (addRange fx t a b).
+Proof. exact addRange_acc. Qed.
+Print Assumptions T11_range_flags_add.
+
+Theorem T11_range_flags_merge : forall t o, rt_acc t -> rt_opnd o -> rt_acc (mergeRanges t o).
+Proof. exact mergeRanges_acc. Qed.
+Print Assumptions T11_range_flags_merge.
+
+Theorem T11_range_flags_inv : forall t, rt_acc t -> rt_inv t /\ normal t (compactRanges (sortRanges t)).
+Proof. intros t H. split; [exact (rt_acc_inv t H) | exact (rt_acc_normal t H)]. Qed.
+Print Assumptions T11_range_flags_inv.
+
+Example T11_range_flags_nonvacuous :
+  rt_acc rt_new /\ rt_opnd (tok_rt [(48, 57); (97, 102)]) /\
+  rs (mergeRanges (addRange false (addRange false rt_new 120 122) 65 70) (tok_rt [(48, 57); (97, 102)])) =
+    [(48, 57); (65, 70); (97, 102); (120, 122)].
+Proof. split; [exact rt_acc_new |]. split; [apply tok_rt_opnd; vm_compute; reflexivity | vm_compute; reflexivity]. Qed.
+
+(* ---------------------------------------------------------------------------------------------- *)
+(** * pre-filters of the non-schema matches(): NECESSITY
+    fMinLength = Token::getMinLength ([minlen_u], UTF-16 units): no word of the language is shorter, so neither
+    [if (fLimit < fMinLength) return false] nor the scan bound [matchStart <= fLimit - fMinLength] can hide a match. *)
+Theorem T11_minlen_necessary : forall dotf t v, Lre (re_of_tok_d dotf t) v -> (minlen_u t <= units_of v)%nat.
+Proof. exact minlen_u_necessary. Qed.
+Print Assumptions T11_minlen_necessary.
+
+Theorem T11_search_bound_necessary : forall dotf t s a v rest, skipn a s = v ++ rest -> Lre (re_of_tok_d dotf t) v ->
+  Nat.ltb (units_of s) (minlen_u t) = false /\ Nat.leb (units_of (firstn a s)) (units_of s - minlen_u t) = true.
+Proof. exact search_bound_necessary. Qed.
+Print Assumptions T11_search_bound_necessary.
+
+Definition t_prefilter : tok :=
+  TConcat [TUnion [TChar 97; TEmpty]; TClosure 2 (Some 3%nat) (TRange false [(98, 99); (0x10000, 0x10001)]); TString [0x10400; 33]].
+
+Example T11_minlen_nonvacuous : minlen_u t_prefilter = 5%nat /\ units_of [98; 0x10000; 0x10400; 33] = 6%nat /\
+  xmatch_fixed_tok true [98; 0x10000; 0x10400; 33] t_prefilter = true.
+Proof. vm_compute. repeat split. Qed.
+
+(** fFirstChar = the set Token::analyzeFirstCharacter collects when it answers FC_TERMINAL (with the repaired addRange,
+    which is what the tree under test has): every word of the language is non-empty and starts with a member of it;
+    the set handed to RangeToken::match is compact.  [tok_nes]: no empty T_STRING (they have >= 2 characters). *)
+Theorem T11_firstchar_necessary : forall dotf t fcs, tok_wfb t = true -> tok_nes t = true -> first_char true t = Some fcs ->
+  compact_ok fcs = true /\
+  forall v, Lre (re_of_tok_d dotf t) v -> exists c r, v = c :: r /\ rt_match false fcs c = true.
+Proof. exact first_char_necessary. Qed.
+Print Assumptions T11_firstchar_necessary.
+
+Definition t_firstchar : tok :=
+  TConcat [TUnion [TChar 97; TEmpty]; TClosure 0 None (TString [0x10400; 33]); TRange false [(98, 99); (0x436, 0x436)]; TDot].
+
+Example T11_firstchar_nonvacuous :
+  tok_wfb t_firstchar = true /\ tok_nes t_firstchar = true /\
+  first_char true t_firstchar = Some [(97, 99); (0x436, 0x436); (0x10400, 0x10400)] /\
+  first_char true (TConcat [TUnion [TChar 97; TDot]; TChar 98]) = None /\
+  first_char true (TClosure 0 None (TChar 97)) = None /\
+  prepare_info sw_fixed t_prefilter = Prep 5 (Some [(97, 99); (0x10000, 0x10001); (0x10400, 0x10400)]).
+Proof. vm_compute. repeat split. Qed.
+
+(** the window reported by the search model starts at the LEFTMOST position at which match() completes (every earlier
+    start failed), and when none is reported match() completes at no position of the subject -- in particular at none
+    the minimum-length pre-check or the scan bound left out.  [run_at] = match() from a given start. *)
+Theorem T11_search_leftmost : forall w fuel sl t s, tok_wfb t = true ->
+  (forall a b, xsearch_tok w fuel sl t s = SFound a b ->
+     (exists st', run_at w fuel sl t s a = MR (Some b) st') /\
+     forall a', (a' < a)%nat -> exists st', run_at w fuel sl t s a' = MR None st') /\
+  (xsearch_tok w fuel sl t s = SNone -> forall a' e st, (a' <= length s)%nat -> run_at w fuel sl t s a' <> MR (Some e) st).
+Proof. exact search_leftmost. Qed.
+Print Assumptions T11_search_leftmost.
+
+(** the scan with the head-character test answers as the scan without it (subjects without surrogate code points;
+    a start whose match() would exhaust the fuel may be skipped, so only definite answers are related) *)
+Theorem T11_prefilter_transparent : forall w fuel sl t s, tok_wfb t = true -> tok_nes t = true -> fx_add w = true ->
+  forallb (fun x => negb (is_surrogate x)) s = true ->
+  (forall a b, xsearch_tok w fuel sl t s = SFound a b -> xsearch_fc w fuel sl t s = SFound a b) /\
+  (xsearch_tok w fuel sl t s = SNone -> xsearch_fc w fuel sl t s = SNone).
+Proof. exact prefilter_transparent. Qed.
+Print Assumptions T11_prefilter_transparent.
+
+Example T11_prefilter_nonvacuous :
+  xsearch_fc sw_fixed 200 false t_firstchar [120; 0x10400; 33; 0x436; 121] = SFound 1 5 /\
+  xsearch_tok sw_fixed 200 false t_firstchar [120; 0x10400; 33; 0x436; 121] = SFound 1 5 /\
+  xsearch_fc sw_fixed 200 false t_prefilter [98; 99; 0x10400] = SNone.
 Proof. vm_compute. repeat split. Qed.
